@@ -176,13 +176,19 @@ func (t *c03Table) anyOf(id string, request bool) *anypb.Any {
 		return a
 	}
 	if strings.HasSuffix(id, "^") {
-		// the same bytes under another message type with the same field layout
-		a := t.anyOf(strings.TrimSuffix(id, "^"), request)
-		if strings.HasSuffix(a.TypeUrl, ".IdempotentUnaryRequest") || !request {
-			a.TypeUrl = "type.googleapis.com/connectrpc.conformance.v1.UnaryRequest"
-		} else {
-			a.TypeUrl = "type.googleapis.com/connectrpc.conformance.v1.IdempotentUnaryRequest"
+		// the same bytes under another message type; n carets give the n-th other type, so that a rewrite
+		// applied twice does not lead back to the original (in the specification "x^^" differs from "x")
+		base := strings.TrimRight(id, "^")
+		k := len(id) - len(base)
+		a := t.anyOf(base, request)
+		var others []string
+		for _, n := range []string{"IdempotentUnaryRequest", "ServerStreamRequest", "ClientStreamRequest", "UnaryRequest"} {
+			u := "type.googleapis.com/connectrpc.conformance.v1." + n
+			if u != a.TypeUrl {
+				others = append(others, u)
+			}
 		}
+		a.TypeUrl = others[(k-1)%len(others)]
 		return a
 	}
 	var msg proto.Message
